@@ -386,3 +386,100 @@ class ModelInterp(Interp):
                 return set(recv) & set(args[0])
             raise DTop(f"method {m}")
         raise DTop("call")
+
+
+class Sym:
+    """An expression the table does not interpret: carried as its text."""
+
+    def __init__(self, text: str):
+        self.text = text
+
+    def __repr__(self):
+        return self.text
+
+    def __eq__(self, other):
+        return isinstance(other, Sym) and other.text == self.text
+
+    def __hash__(self):
+        return hash(self.text)
+
+
+class SymInterp(Interp):
+    """Decision-table evaluation of an expression whose TESTS are over bound atoms and whose leaves are arbitrary:
+    conditionals, and / or / not, comparisons and {..}.get / {..}[k] / membership are evaluated; everything else
+    is returned as Sym(text).  A test over an unbound value raises DTop (the table cannot be decided)."""
+
+    def ev(self, e: ast.expr) -> Any:
+        try:
+            return self.atoms(e)
+        except KeyError:
+            pass
+        if isinstance(e, ast.IfExp):
+            t = self.ev(e.test)
+            if isinstance(t, Sym):
+                raise DTop(f"test over an unbound value: {t.text[:60]}")
+            return self.ev(e.body) if self.truth(t) else self.ev(e.orelse)
+        if isinstance(e, (ast.BoolOp, ast.Compare)) or (isinstance(e, ast.UnaryOp) and isinstance(e.op, ast.Not)):
+            for sub in ast.iter_child_nodes(e):
+                pass
+            try:
+                v = super().ev(e)
+            except DTop:
+                return Sym(u(e))
+            return v
+        if isinstance(e, ast.Constant):
+            return e.value
+        if isinstance(e, ast.Tuple):
+            return tuple(self.ev(x) for x in e.elts)
+        if isinstance(e, ast.Dict):
+            try:
+                return {self.ev(k): self.ev(v) for k, v in zip(e.keys, e.values)}
+            except TypeError:
+                return Sym(u(e))
+        if isinstance(e, ast.Call) and isinstance(e.func, ast.Attribute) and e.func.attr == "get":
+            d = self.ev(e.func.value)
+            if isinstance(d, dict):
+                k = self.ev(e.args[0])
+                if isinstance(k, Sym):
+                    raise DTop(f"lookup by an unbound key: {k.text[:60]}")
+                return d.get(k, self.ev(e.args[1]) if len(e.args) > 1 else None)
+            return Sym(u(e))
+        if isinstance(e, ast.Subscript) and not isinstance(e.slice, ast.Slice):
+            d = self.ev(e.value)
+            if isinstance(d, dict):
+                k = self.ev(e.slice)
+                if isinstance(k, Sym):
+                    raise DTop(f"lookup by an unbound key: {k.text[:60]}")
+                if k not in d:
+                    raise Raises("KeyError", u(e)[:60])
+                return d[k]
+            return Sym(u(e))
+        if isinstance(e, (ast.GeneratorExp, ast.ListComp)) or (isinstance(e, ast.Call) and isinstance(e.func, ast.Name) and e.func.id == "tuple"):
+            try:
+                return super().ev(e)
+            except DTop:
+                return Sym(u(e))
+        if isinstance(e, ast.Call) and is_call_to(e, "__raise__"):
+            return super().ev(e)
+        return Sym(u(e))
+
+    def compare(self, op, a, b):  # type: ignore[override]
+        if isinstance(a, Sym) or isinstance(b, Sym):
+            raise DTop("comparison with an unbound value")
+        return Interp.compare(op, a, b)
+
+
+def eval_ctor(it: "SymInterp", e: ast.expr):
+    """Evaluate a factory body to (callee value, [argument values], {keyword: value})."""
+    # resolve conditionals around the call first
+    while isinstance(e, ast.IfExp):
+        t = it.ev(e.test)
+        if isinstance(t, Sym):
+            raise DTop(f"test over an unbound value: {t.text[:60]}")
+        e = e.body if it.truth(t) else e.orelse
+    if not isinstance(e, ast.Call):
+        return it.ev(e), [], {}
+    if is_call_to(e, "__raise__"):
+        return it.ev(e), [], {}
+    callee = it.ev(e.func)
+    return callee, [it.ev(a) for a in e.args], {k.arg: it.ev(k.value) for k in e.keywords if k.arg}
